@@ -115,3 +115,18 @@ func (db *DB) VerifQuiescent(table string) bool {
 	return db.VerifCounter(table, "processed") == db.VerifCounter(table, "read") &&
 		db.VerifCounter(table, "applied") == db.VerifCounter(table, "submitted")
 }
+
+// verifCoalesced records the size of each coalesced iteration group: counter
+// "coalesced_groups" counts groups, "coalesced_iterations" sums their sizes and
+// "coalesced_max" holds the largest group seen.
+func verifCoalesced(t *table, n int) {
+	atomic.AddInt64(verifCounterFor(t.db, t.Name, "coalesced_groups"), 1)
+	atomic.AddInt64(verifCounterFor(t.db, t.Name, "coalesced_iterations"), int64(n))
+	max := verifCounterFor(t.db, t.Name, "coalesced_max")
+	for {
+		old := atomic.LoadInt64(max)
+		if int64(n) <= old || atomic.CompareAndSwapInt64(max, old, int64(n)) {
+			return
+		}
+	}
+}
